@@ -460,6 +460,29 @@ static void oversize_workload(Harness& H, bool thorough)
       }
 }
 
+// Words interned during static initialisation (constructor of a namespace-scope object, earliest priority a program may ask
+// for): the reserved words and the empty word lead to the same process-wide nodes as inside main(), ordinary words keep their
+// bytes and are shared within that Lexicon.  Plain arrays only; compared in body().
+struct EarlyWords {
+   bool ran = false, threw = false;
+   const String* reserved[std::size(reserved_words)] = { }; const String* empty = nullptr;
+   bool reserved_spelled[std::size(reserved_words)] = { };
+   bool ordinary_ok = true;
+   EarlyWords()
+   {
+      try {
+         impl::Lexicon lex;
+         std::size_t i = 0;
+         for (auto w : reserved_words) { auto& s = lex.get_string(w); reserved[i] = &s; reserved_spelled[i] = s.characters() == w; ++i; }
+         empty = &lex.get_string(u8"");
+         const char8_t* words[] = { u8"in", u8"inta", u8"Int", u8"an_ordinary_word_of_some_length", u8"x" };
+         for (auto w : words) { auto& a = lex.get_string(w); auto& b = lex.get_string(w); if (&a != &b || a.characters() != std::u8string_view(w)) ordinary_ok = false; for (auto r : reserved) if (r == &a) ordinary_ok = false; }
+      } catch (...) { threw = true; }
+      ran = true;
+   }
+};
+__attribute__((init_priority(101))) static EarlyWords early_words;
+
 static void body(Ctx& C)
 {
    C.rule("a case = one interned word, distinct by content; sources are exact-size heap buffers without terminator; families: every "
@@ -470,7 +493,22 @@ static void body(Ctx& C)
           "all earlier Strings are re-read (address, length, bytes) and storage intervals [header,end) are checked pairwise disjoint");
    C.assume("storage interval of a dynamic word = 8-byte length header immediately before characters() (pinned layout), used only for the overlap check");
    for (auto k : { "pool_rollovers", "oversize_own_pool", "oversize_fitted_current_pool", "boundary_requests_rolled_over", "boundary_requests_fitted",
-                   "equal_hash_chains_verified", "equal_hash_prefix_chains_verified", "words_given_an_equal_hash_neighbour", "words_given_an_equal_hash_and_length_neighbour", "re_interned", "rechecks", "interval_checks", "reserved_words_checked", "interned:reserved-near-miss", "first_pool_filled_exactly", "views_into_pool_storage", "sources_at_odd_alignment", "digest_twins_interned" }) C.need(k);
+                   "equal_hash_chains_verified", "equal_hash_prefix_chains_verified", "words_given_an_equal_hash_neighbour", "words_given_an_equal_hash_and_length_neighbour", "re_interned", "rechecks", "interval_checks", "reserved_words_checked", "interned:reserved-near-miss", "first_pool_filled_exactly", "views_into_pool_storage", "sources_at_odd_alignment", "digest_twins_interned", "words_interned_during_static_initialisation" }) C.need(k);
+   {  // what the early probe saw
+      const EarlyWords& E = early_words;
+      C.count("words_interned_during_static_initialisation", E.ran ? (long long)std::size(reserved_words) + 6 : 0);
+      if (!E.ran || E.threw) C.viol("static-initialisation:lexicon-unusable", "a Lexicon built during static initialisation raised an exception when words were interned");
+      else {
+         impl::Lexicon now; std::size_t i = 0;
+         for (auto w : reserved_words) {
+            if (E.reserved[i] != &now.get_string(w)) C.viol("reserved-word:other-node-during-static-initialisation", "a reserved word interned during static initialisation is not the process-wide node it maps to inside main()", Harness::desc(narrow(w), "reserved"));
+            if (!E.reserved_spelled[i]) C.viol("content-at-return:during-static-initialisation", "a reserved word interned during static initialisation does not have its characters", Harness::desc(narrow(w), "reserved"));
+            ++i;
+         }
+         if (E.empty != &now.get_string(u8"")) C.viol("empty-word:other-node-during-static-initialisation", "the empty word interned during static initialisation is not the process-wide empty word");
+         if (!E.ordinary_ok) C.viol("ordinary-word:during-static-initialisation", "an ordinary word interned during static initialisation lost its characters, was not shared, or was answered with a reserved word's node");
+      }
+   }
    {  // a completely empty first pool: words that fill it exactly, or miss by one byte
       for (long long n : { (1LL << 20) - 8, (1LL << 20) - 7, (1LL << 20) - 24, (1LL << 20) - 9 }) {
          Harness F(C.seed + 17 + std::uint64_t(n));
